@@ -168,6 +168,9 @@ func calculateCharges(lines []*Charge, cur currency.Code, sum num.Amount, rr cbc
 		return
 	}
 	for i, l := range lines {
+		if l == nil {
+			continue
+		}
 		l.Index = i + 1
 		if l.Percent != nil && !l.Percent.IsZero() {
 			base := sum
@@ -187,6 +190,9 @@ func calculateChargeSum(charges []*Charge, cur currency.Code) *num.Amount {
 	}
 	total := cur.Def().Zero()
 	for _, l := range charges {
+		if l == nil {
+			continue
+		}
 		total = total.MatchPrecision(l.Amount)
 		total = total.Add(l.Amount)
 	}
@@ -204,6 +210,9 @@ func (m *Charge) round(cur currency.Code) {
 
 func roundCharges(lines []*Charge, cur currency.Code) {
 	for _, l := range lines {
+		if l == nil {
+			continue
+		}
 		l.round(cur)
 	}
 }
